@@ -191,9 +191,18 @@ func TestVerif_C08Cache(t *testing.T) {
 	}
 	var sb strings.Builder
 	sb.WriteString("From Coq Require Import List NArith ZArith Bool.\nFrom KM Require Import Base.Cases Model.AdminCache.\nImport ListNotations.\nOpen Scope N_scope.\n")
-	sb.WriteString("Definition traces : list (Z * bool * list cop * list cout) := [\n " + strings.Join(cases, ";\n ") + "].\n")
-	sb.WriteString("Definition c08_cache_ntraces := Eval vm_compute in length traces.\nPrint c08_cache_ntraces.\n")
-	sb.WriteString("Definition c08_cache_mismatches := Eval vm_compute in mismatches (fun c : Z * bool * list cop * list cout => let '(maxd, isnil, ops, outs) := c in negb (couts_eqb (crun maxd (if isnil then None else Some []) ops) outs)) traces.\nPrint c08_cache_mismatches.\n")
+	sb.WriteString("Definition bad_trace (c : Z * bool * list cop * list cout) : bool := let '(maxd, isnil, ops, outs) := c in negb (couts_eqb (crun maxd (if isnil then None else Some []) ops) outs).\n")
+	var parts []string
+	for off, k := 0, 0; off < len(cases); off, k = off+500, k+1 {
+		end := off + 500
+		if end > len(cases) {
+			end = len(cases)
+		}
+		sb.WriteString(fmt.Sprintf("Definition traces_%d : list (Z * bool * list cop * list cout) := [\n %s].\n", k, strings.Join(cases[off:end], ";\n ")))
+		parts = append(parts, fmt.Sprintf("mismatches_from bad_trace traces_%d %d", k, off))
+	}
+	sb.WriteString(fmt.Sprintf("Definition c08_cache_ntraces := %d%%N.\nPrint c08_cache_ntraces.\n", len(cases)))
+	sb.WriteString("Definition c08_cache_mismatches := Eval vm_compute in (" + strings.Join(parts, " ++ ") + ").\nPrint c08_cache_mismatches.\n")
 	if err := ioutil.WriteFile(filepath.Join(out, "CasesC08Cache.v"), []byte(sb.String()), 0644); err != nil {
 		t.Fatal(err)
 	}
